@@ -9,6 +9,7 @@ package props
 import (
 	"bytes"
 	"context"
+	"encoding/binary"
 	"errors"
 	"fmt"
 	"strings"
@@ -161,7 +162,28 @@ func TestC03Frames(t *testing.T) {
 		}
 		bodyBytes := e5.Encode(body)
 		want := e37.DataFrame(session, stream, function, w, sys, bodyBytes)
-		frame := m.ToBytes()
+		// the very first serialization of the message goes through one of the copying entry points; the
+		// buffer it returns is the caller's (a scratch buffer reused for the next message): what the
+		// caller writes into it afterwards must not show in any later serialization
+		var frame []byte
+		switch rapid.IntRange(0, 2).Draw(rt, "firstSerialization") {
+		case 0:
+			first := m.ToBytes()
+			frame = bytes.Clone(first)
+			scribbleBytes(first)
+		case 1:
+			fb := m.AppendBodyTo(make([]byte, 3, 3+m.BodyLen()))
+			hb := m.HeaderBytes()
+			frame = binary.BigEndian.AppendUint32(nil, uint32(10+len(fb)-3))
+			frame = append(append(frame, hb[:]...), fb[3:]...)
+			scribbleBytes(fb)
+		default:
+			fb := m.AppendBodyTo(nil)
+			first := m.ToBytes()
+			frame = bytes.Clone(first)
+			scribbleBytes(fb)
+			scribbleBytes(first)
+		}
 		if err := sameFrame(body, frame, want.Bytes()); err != nil {
 			rt.Fatalf("C03 violated: ToBytes of S%dF%d W=%v sess=%04x sys=%08x: %v", stream, function, w, session, sys, err)
 		}
@@ -375,6 +397,25 @@ func c03Control(rt *rapid.T) {
 	ev.Case(true, fmt.Sprint("ctl", kind, session, sys, status), func() any { return "control " + want.String() }, fmt.Sprintf("c03:control:%d", kind))
 }
 
+// c03Garbage describes bytes written by the library that do not form whole E37 frames (the wire is
+// quiescent when it is called: a frame is written in one piece, so an incomplete trailing frame is
+// a frame with a wrong length field or a torn header).
+func c03Garbage(p *netsim.Peer) string {
+	if p == nil || p.PendingBytes() == 0 {
+		return ""
+	}
+	raw := p.Raw()
+	n := p.PendingBytes()
+	if n > len(raw) {
+		n = len(raw)
+	}
+	tail := raw[len(raw)-n:]
+	if len(tail) > 32 {
+		tail = tail[:32]
+	}
+	return fmt.Sprintf("the library wrote bytes that are not a well-formed E37 frame: %d trailing bytes do not form a frame of the length their length field announces, beginning %x", n, tail)
+}
+
 // TestC03Wire: what a connection writes to the socket for a message is exactly msg.ToBytes().
 func TestC03Wire(t *testing.T) {
 	ev.Rule("a Selected connection (both roles) sends generated messages through ForwardDataMessage / ForwardDataMessageAsync (exact bytes known; the forwarded message is built with its header, or re-stamped to it from a message built or wire-decoded with another header, or decoded from the wire), SendDataMessage / SendDataMessageAsync / SendSECS2Message / ReplyDataMessage (bytes known up to the library-chosen system bytes / session id, read back at their E37 positions); the raw peer compares the bytes it reads; optionally 2-5 re-stamped copies of one message are forwarded concurrently (sync and async) and the wire must carry exactly their reference frames; non-trivial = body non-empty")
@@ -404,9 +445,19 @@ func TestC03Wire(t *testing.T) {
 				rt.Fatalf("VERIF-INFRA: %v", err)
 			}
 			if err := w.selectAsPeer(p, 99); err != nil {
+				if g := c03Garbage(p); g != "" {
+					rt.Fatalf("C03 violated (active=%v): the select exchange did not complete: %s", active, g)
+				}
 				rt.Fatalf("VERIF-INFRA: %v", err)
 			}
 			p.Take()
+			defer func() {
+				// every byte the library wrote on this connection belongs to a whole, well-formed frame
+				synctest.Wait()
+				if g := c03Garbage(p); g != "" && !rt.Failed() {
+					rt.Fatalf("C03 violated (active=%v): %s", active, g)
+				}
+			}()
 			n := rapid.IntRange(1, 6).Draw(rt, "messages")
 			seen := map[uint32]bool{}
 			for i := 0; i < n; i++ {
